@@ -70,8 +70,9 @@ MkRrs(owner, rs, ttl) ==
 VARIABLES key, keyOwner, orig, sig0,     \* what was signed, and the signer's RRSIG fields
           cur, sig,                      \* what the validator sees
           sigflip, keyflip, compress,    \* signature / key bit flipped; passed through a compressed message
+          conv,                          \* representation conversion applied to RRs, RRSIG and key
           nops, altered, last
-vars == <<key, keyOwner, orig, sig0, cur, sig, sigflip, keyflip, compress, nops, altered, last>>
+vars == <<key, keyOwner, orig, sig0, cur, sig, sigflip, keyflip, compress, conv, nops, altered, last>>
 
 Init ==
   \E o \in Owners, rs \in RdSets, kk \in Keys, tm \in Times, ttl \in Ttls :
@@ -79,7 +80,7 @@ Init ==
      /\ orig = MkRrs(o, rs, ttl)
      /\ sig0 = SignerFields(kk.k, kk.owner, orig, tm.inc, tm.exp)
      /\ cur = orig /\ sig = sig0
-     /\ sigflip = FALSE /\ keyflip = FALSE /\ compress = FALSE
+     /\ sigflip = FALSE /\ keyflip = FALSE /\ compress = FALSE /\ conv = "none"
      /\ nops = 0 /\ altered = FALSE /\ last = "Sign"
 
 Same == UNCHANGED <<key, keyOwner, orig, sig0>>
@@ -92,7 +93,7 @@ Permute ==
   /\ CanT /\ Len(cur) >= 2
   /\ \/ cur' = Tail(cur) \o <<Head(cur)>>
      \/ cur' = <<cur[2], cur[1]>> \o SubSeq(cur, 3, Len(cur))
-  /\ UNCHANGED <<sig, compress>> /\ T("Permute")
+  /\ UNCHANGED <<sig, compress, conv>> /\ T("Permute")
 
 Recase ==
   /\ CanT
@@ -100,14 +101,14 @@ Recase ==
      \/ cur' = [cur EXCEPT ![1].owner = IF @ = UpperName(@) THEN LowerName(@) ELSE UpperName(@)] /\ sig' = sig
      \/ cur' = cur /\ sig' = [sig EXCEPT !.signer = IF @ = UpperName(@) THEN LowerName(@) ELSE UpperName(@)]
   /\ <<cur', sig'>> # <<cur, sig>>
-  /\ UNCHANGED compress /\ T("Recase")
+  /\ UNCHANGED <<compress, conv>> /\ T("Recase")
 
 DecTtl ==
   /\ CanT
   /\ \E d \in {1, cur[1].ttl} :
         /\ d > 0 /\ d <= cur[1].ttl
         /\ cur' = [i \in 1..Len(cur) |-> [cur[i] EXCEPT !.ttl = @ - d]]
-  /\ UNCHANGED <<sig, compress>> /\ T("DecTtl")
+  /\ UNCHANGED <<sig, compress, conv>> /\ T("DecTtl")
 
 QNames == {<<<<120>>>>, <<<<89>>, <<120>>>>}          \* x   and   Y.x
 ExpandWildcard ==
@@ -115,17 +116,26 @@ ExpandWildcard ==
   /\ IsWildcard(cur[1].owner) /\ Len(cur[1].owner) = sig.labels + 1
   /\ \E q \in QNames :
         cur' = [i \in 1..Len(cur) |-> [cur[i] EXCEPT !.owner = q \o Suffix(@, sig.labels)]]
-  /\ UNCHANGED <<sig, compress>> /\ T("ExpandWildcard")
+  /\ UNCHANGED <<sig, compress, conv>> /\ T("ExpandWildcard")
 
 Compress ==
   /\ CanT /\ ~compress
   /\ compress' = TRUE
-  /\ UNCHANGED <<cur, sig>> /\ T("Compress")
+  /\ UNCHANGED <<cur, sig, conv>> /\ T("Compress")
+
+\* The values change representation, not content: RRs and RRSIG are read out
+\* of a message as parsed records and flattened into owned ones
+\* ("flatten"), or converted between octets types ("octets": OctetsFrom /
+\* octets_into of records, Rrsig, Dnskey).  Every field stays what it was.
+Convert ==
+  /\ CanT /\ conv = "none"
+  /\ conv' \in {"flatten", "octets"}
+  /\ UNCHANGED <<cur, sig, compress>> /\ T("Convert")
 
 (* alterations: exactly one, then the behaviour ends *)
 CanA == ~altered /\ nops <= AltDepth
 Alt(name) == /\ altered' = TRUE /\ last' = name /\ nops' = nops + 1 /\ Same
-             /\ UNCHANGED compress
+             /\ UNCHANGED <<compress, conv>>
 
 AltRdata ==
   /\ CanA
@@ -156,7 +166,7 @@ AltSigField ==
      \/ sig' = [sig EXCEPT !.signer = IF @ = <<>> THEN <<<<113>>>> ELSE AltNameAt(@, 1)] /\ last' = "AltSigner"
      \/ sig' = [sig EXCEPT !.signer = <<<<113>>>> \o @] /\ last' = "AltSigner"
   /\ altered' = TRUE /\ nops' = nops + 1 /\ Same
-  /\ UNCHANGED <<cur, sigflip, keyflip, compress>>
+  /\ UNCHANGED <<cur, sigflip, keyflip, compress, conv>>
 
 DropRR ==
   /\ CanA /\ Len(cur) >= 2
@@ -178,7 +188,7 @@ AltKeyBit ==
   /\ CanA /\ keyflip' = TRUE
   /\ UNCHANGED <<cur, sig, sigflip>> /\ Alt("AltKeyBit")
 
-Next == \/ Permute \/ Recase \/ DecTtl \/ ExpandWildcard \/ Compress
+Next == \/ Permute \/ Recase \/ DecTtl \/ ExpandWildcard \/ Compress \/ Convert
         \/ AltRdata \/ AltOwner \/ AltClass \/ AltSigField \/ DropRR \/ AddRR
         \/ AltSigBit \/ AltKeyBit
 
@@ -212,7 +222,8 @@ KeyTagRange == sig0.tag \in 0..65535
 Emit == PrintT("CASE " \o ToJson(
   [in  |-> [kind |-> "rrsig", key |-> key, keyOwner |-> keyOwner,
             inc |-> sig0.inc, exp |-> sig0.exp, orig |-> orig, cur |-> cur, sig |-> sig,
-            sig0 |-> sig0, sigflip |-> sigflip, keyflip |-> keyflip, compress |-> compress, last |-> last],
+            sig0 |-> sig0, sigflip |-> sigflip, keyflip |-> keyflip, compress |-> compress, conv |-> conv,
+            last |-> last],
    exp |-> [sig0 |-> sig0, signer |-> Signed, validator |-> ValidatorOctets(sig, cur),
             verify |-> Verifies]]))
 
@@ -234,5 +245,32 @@ EmitKeys == First =>
         [in |-> [kind |-> "ds", owner |-> o, key |-> kk.k, dt |-> d,
                  term |-> DsDigest(o, kk.k, d)],
          exp |-> [match |-> TRUE]]))
+B6Pub == <<1, 3, 178, 213, 182, 85, 190, 147, 234, 134, 14, 35, 236, 66, 104, 51, 218, 200, 221, 153, 178, 19, 29, 142, 204, 48, 85, 173, 156, 191, 150, 242, 57, 9, 7, 143, 197, 113, 217, 75, 136, 188, 116, 3, 71, 224, 53, 247, 181, 177, 232, 151, 173, 94, 147, 193, 5, 49, 203, 6, 95, 18, 156, 136, 145, 71, 202, 25, 125, 224, 47, 141, 192, 130, 208, 119, 59, 20, 149, 33, 104, 188, 22, 108, 202, 95, 205, 95, 172, 132, 110, 220, 63, 196, 223, 89, 53, 202, 219, 98, 248, 35, 141, 159, 212, 84, 246, 72, 201, 33, 77, 178, 1, 24, 190, 29, 51, 219, 158, 54, 151, 51, 10, 71, 128, 225, 242, 230, 95, 125>>
+B6Sig == <<56, 194, 188, 172, 6, 101, 122, 151, 243, 45, 101, 187, 228, 60, 93, 235, 120, 242, 219, 11, 48, 17, 44, 241, 12, 161, 182, 127, 208, 12, 55, 80, 178, 180, 39, 117, 209, 198, 8, 72, 12, 95, 1, 219, 215, 73, 158, 241, 186, 50, 128, 180, 246, 220, 182, 243, 144, 218, 135, 206, 236, 6, 73, 249, 221, 53, 17, 231, 144, 77, 80, 79, 171, 143, 250, 40, 37, 161, 169, 237, 151, 78, 57, 228, 84, 179, 111, 190, 25, 220, 210, 237, 188, 106, 132, 172, 27, 79, 184, 34, 123, 228, 144, 225, 228, 156, 172, 112, 226, 69, 245, 240, 195, 17, 223, 136, 188, 148, 45, 250, 73, 30, 113, 6, 120, 188, 188, 114>>
+B6Exp == <<64, 158, 122, 35>>
+B6Inc == <<64, 118, 237, 35>>
+B6Example == <<101, 120, 97, 109, 112, 108, 101>>
+B6Owner == <<<<97>>, <<122>>, <<119>>, B6Example>>
+B6Mx == <<Raw(<<0, 1>>), Nm(<<<<97, 105>>, B6Example>>)>>
+\* RFC 4035 B.6: the MX RRset of *.w.example expanded to a.z.w.example, signed
+\* with RSA/SHA-1 (the ring backend verifies but cannot sign this algorithm).
+\* The model builds the signed octets; the executor checks the RFC's
+\* signature over them with the library, for the key as published and for
+\* the same key with its Algorithm field set to every other number.
+B6Key == [flags |-> 256, proto |-> 3, alg |-> 5, pub |-> B6Pub]
+B6Rrs == << [owner |-> B6Owner, type |-> 15, class |-> 1, ttl |-> 3600, rd |-> B6Mx] >>
+B6Fields == [tc |-> 15, alg |-> 5, labels |-> 2, ottl |-> 3600, exp |-> B6Exp, inc |-> B6Inc,
+             tag |-> 38519, signer |-> <<B6Example>>]
+B6Data == SignedData(B6Fields, B6Rrs)
+VectorLaws == First =>
+  /\ KeyTag(B6Key) = 38519
+  /\ ValidatorOctets(B6Fields, B6Rrs) = B6Data
+  /\ \A x \in 0..255 :
+        Verify(SignTerm(B6Key, B6Data), [B6Key EXCEPT !.alg = x], B6Data) <=> x = 5
+EmitVectors == First =>
+  \A x \in 0..255 : PrintT("CASE " \o ToJson(
+     [in  |-> [kind |-> "vector", key |-> [B6Key EXCEPT !.alg = x], rrs |-> B6Rrs, sig |-> B6Fields,
+               signature |-> B6Sig, data |-> B6Data],
+      exp |-> [data_ok |-> TRUE, verify |-> x = 5]]))
 KeyTagLaws == First => \A k \in KtKeys : KeyTag(k) \in 0..65535
 =============================================================================
